@@ -17,7 +17,8 @@ ID = "C37"
 LEVEL = "exploration"
 TECHNIQUE = "bounded exhaustive enumeration (values; keys x formats x passphrase x parse mode)"
 RULE = ("NS/getNS: every byte string of length <= 2 (65 793 values), lengths 255/256/65535/65536/2^20+1, and every "
-        "pair/tail concatenation from a boundary set decoded with count=2; MP/getMP: every integer 0..69999, 2^k-1, 2^k, "
+        "pair/tail concatenation from a boundary set decoded with count=2, every str of length <= 3 over 11 characters of UTF-8 "
+        "width 1-4 (expected decode = its UTF-8 bytes) alone and followed by a second field; MP/getMP: every integer 0..69999, 2^k-1, 2^k, "
         "2^k+1 for every k <= 4096, and pair/tail concatenations. Keys: a deterministic pool (RSA with p<q, p>q, e in "
         "{3|5|17, 65537}, modulus bit length = 0,1,7 mod 8; DSA with x=1, y with/without leading zero byte; ECDSA "
         "P-256/384/521 with private value 1, 2, 2^(bits-1)-3, first value whose x resp. y coordinate has a leading zero byte, the "
@@ -405,6 +406,16 @@ def run_ns(shard, st, seed):
     for b0 in range(lo, hi):
         for s in ns_values_block(b0):
             one(s)
+    if lo == 32:
+        for t in str_values():
+            for second in (b"", b"xy"):
+                st.evaluations += 1
+                bad = check_ns_str(t, second, b"\x00tail")
+                for sig, detail in bad:
+                    st.violation(sig, detail, {"part": "nsstr", "t": [ord(c) for c in t], "second": second.hex()})
+                st.outcome("ns-str-%s-%s" % (str_class(t), "bad" if bad else "ok"))
+                if str_class(t) != "ascii":
+                    st.nt(("nsstr", t, second))
     if lo == 0:
         fill = bytes(((seed * 7 + i) & 0xFF) for i in range(256))
         for n in NS_LONG:
@@ -419,6 +430,38 @@ def run_ns(shard, st, seed):
                                      {"part": "ns2", "a": a.hex(), "b": b.hex(), "t": t.hex()})
                     st.nt(("ns2", a, b, t))
                     st.outcome("ns-pair")
+
+
+STR_CHARS = ["a", "\x00", "\x7f", "\u0080", "\u00e9", "\u07ff", "\u0800", "\u20ac", "\uffff", "\U00010000", "\U0001F600"]
+
+
+def str_values():
+    """Every str of length <= 3 over 1-, 2-, 3- and 4-byte UTF-8 characters (incl. the first/last code point of each width)."""
+    import itertools
+    for n in range(0, 4):
+        for t in itertools.product(STR_CHARS, repeat=n):
+            yield "".join(t)
+
+
+def str_class(t):
+    w = sorted(set(len(c.encode("utf-8")) for c in t))
+    return "ascii" if w in ([], [1]) else "non-ascii"
+
+
+def check_ns_str(t, second, tail):
+    """NS() accepts str and documents UTF-8 encoding: the decoded value is the UTF-8 bytes, following fields stay in sync."""
+    from twisted.conch.ssh.common import NS, getNS
+    want = t.encode("utf-8")
+    enc = NS(t)
+    got1 = getNS(enc)
+    got2 = getNS(enc + NS(second) + tail, 2)
+    bad = []
+    if got1 != (want, b""):
+        bad.append(("NS:str-roundtrip-differs:%s" % str_class(t), "NS(%r) decodes to %r, UTF-8 is %r" % (t, got1, want)))
+    if got2 != (want, second, tail):
+        bad.append(("NS:str-following-field-desynchronised:%s" % str_class(t),
+                    "NS(%r)+NS(%r)+%r decodes to %r" % (t, second, tail, got2)))
+    return bad
 
 
 def mp_values(shard):
@@ -549,6 +592,8 @@ def replay(w):
             s = (fill * (w["len"] // 256 + 1))[:w["len"]]
         got = getNS(NS(s))
         return [] if got == (s, b"") else [("NS:roundtrip-differs:len%s" % ("<256" if len(s) < 256 else ">=256"), repr(got)[:80])]
+    if part == "nsstr":
+        return check_ns_str("".join(chr(c) for c in w["t"]), bytes.fromhex(w["second"]), b"\x00tail")
     if part == "ns2":
         a, b, t = (bytes.fromhex(w[k]) for k in "abt")
         return [] if getNS(NS(a) + NS(b) + t, 2) == (a, b, t) else [("NS:count2-differs", "")]
